@@ -27,10 +27,10 @@ import ast
 
 from ..core import AnalysisError, norm, short
 from ..loader import FuncInfo
-from .dispatch import DispatchView
+from .dispatch import DispatchView, resolve_local, run_group
 from .noninterf import RequestPath, path_text
 from .common import (cfg_of, fkey, conds, has_cond, cond_texts, stmts_of, walk_body, call_tail, call_name, returns_of,
-                     raises_of, raise_type, stmt_of, kwarg, protected_by, handler_reraises_always)
+                     raises_of, raise_type, stmt_of, kwarg, protected_by, handler_reraises_always, isinstance_test)
 from ..cfg import enclosing_tries
 from ..astutil import handler_catches
 
@@ -63,11 +63,32 @@ def must_catch(rp, target, exc='Exception', depth=0, seen=None):
     return not bad, bad
 
 
+def _layers(f, e):
+    """Layers of the mapping passed as ``**e``: a local (assignment plus later .update / item stores) or an expression."""
+    from .. import layers
+    if isinstance(e, ast.Name):
+        return layers.layers_of_var(f.node, e.id, 3)     # no expansion of source locals: the sources are compared by name
+    return layers.layers_of_expr(e)
+
+
+def _is_the_error(dv, cfg, h, asg, e, at):
+    """``e`` (evaluated at statement ``at`` inside handler ``h``) is the exception being handled: the handler's name, or
+    the result variable at a point where it is known to hold the exception."""
+    if h.name is not None and norm(e) == h.name:
+        return True
+    if norm(e) == dv.ret_var and asg:
+        src = cfg.nodes_of_all(asg)
+        others = [n.id for n in cfg.nodes if n.kind == 'stmt' and isinstance(n.stmt, ast.Assign) and n.stmt not in asg and
+                  any(norm(t) == dv.ret_var for t in n.stmt.targets)]
+        # the binding dominates the use and no other assignment of the result variable lies in between
+        return cfg.must_pass(src, cfg.handler_nodes(h), cfg.nodes_of(at)) and \
+            not (set(others) & cfg.reach([m for x in src for m in cfg.succ[x]], avoid=cfg.nodes_of(at)) & cfg.coreach(cfg.nodes_of(at), avoid=src))
+    return False
+
+
 def run(rep):
     repo = rep.repo
     app, route, err = repo.mod(APP), repo.mod(ROUTE), repo.mod(ERR)
-    dv = DispatchView(repo)
-    f, cfg = dv.fi, dv.cfg
     rp = RequestPath(repo)
     rep.decide('R08.a user code under Exception handlers (interprocedural); R08.b non-Response results converted; '
                'R08.c re-raise only if configured; R08.d no shared store on the request path')
@@ -81,177 +102,237 @@ def run(rep):
     rep.rule('R08.c', 'bare raise in uncaught_to_response dominated by self.reraise_uncaught')
     rep.rule('R08.d', 'effect classification of every store reachable from Application.__call__')
 
-    # ---- R08.a -----------------------------------------------------------
-    for q in ('BoundRoute.execute', 'BoundRoute.execute_error'):
-        tgt = route.func(q)
-        inj = [c for c in walk_body(tgt.node) if isinstance(c, ast.Call) and call_name(c) == 'inject']
-        if len(inj) != 1:
-            raise AnalysisError('%s: expected one inject call' % q)
-        # inject itself inside the target is unprotected (by design): protection must come from callers
-        ok, bad = must_catch(rp, tgt)
-        rep.check('R08.a', '%s::%s::callers protect' % (ROUTE, q), ok,
-                  'every path from Application.__call__ to %s runs it under "except Exception"' % q if ok else
-                  'user code can raise out to the WSGI server: %s' % '; '.join(bad), route, tgt.node)
-    # shape of the execute handler
-    h = protected_by(f, dv.exec_st, 'Exception')
-    if h is None:
-        rep.fail('R08.a', fkey(f, 'route.execute handler'), 'route.execute(...) is not inside a try with "except Exception"', app, dv.exec_st)
-    else:
-        tr = [t for t, part in enclosing_tries(app, dv.exec_st, f.node) if part == 'body' and h in t.handlers][0]
-        idx = tr.handlers.index(h)
-        earlier = tr.handlers[:idx]
-        rr = [x for x in earlier if norm(x.type) == 'RerouteWSGI']
-        ok = len(rr) == 1 and handler_reraises_always(f, rr[0])
-        rep.check('R08.a', fkey(f, 'RerouteWSGI passes'), ok, 'RerouteWSGI is re-raised by an earlier, more specific handler' if ok else
-                  'RerouteWSGI is swallowed by the generic handler (or not re-raised)', app, tr)
-        ok = h.name is not None
-        asg = [s for s in h.body if isinstance(s, ast.Assign) and norm(s.targets[0]) == dv.ret_var and norm(s.value) == h.name]
-        ok = ok and len(asg) == 1 and h.body[0] is asg[0]
-        rep.check('R08.a', fkey(f, 'raised == returned'), ok, 'a raised exception becomes the result (an HTTPException raised is treated like one returned)' if ok else
-                  'the handler does not bind the raised exception as the result', app, h)
-        utr = [s for s in ast.walk(h) if isinstance(s, ast.Assign) and isinstance(s.value, ast.Call) and call_tail(s.value) == 'uncaught_to_response']
-        ok = len(utr) == 1 and norm(utr[0].targets[0]) == dv.ret_var and \
-            has_cond(conds(f, utr[0]), lambda t: norm(t) == 'isinstance(%s, HTTPException)' % dv.ret_var, False)
-        rep.check('R08.a', fkey(f, 'uncaught_to_response'), ok,
-                  'every non-HTTP exception is converted by err_handler.uncaught_to_response(...)' if ok else
-                  'non-HTTP exceptions are not routed through uncaught_to_response into the result', app, utr[0] if utr else h)
-        if utr:
-            c = utr[0].value
-            star = [k.value for k in c.keywords if k.arg is None]
-            pv = norm(star[0]) if star else None
-            srcs = [s.value for s in ast.walk(h) if isinstance(s, ast.Assign) and norm(s.targets[0]) == pv]
-            ok = len(srcs) == 1 and isinstance(srcs[0], ast.Call) and call_name(srcs[0]) == 'dict' and \
-                norm(kwarg(srcs[0], '_route')) == dv.route_var and norm(kwarg(srcs[0], '_error')) == dv.ret_var and \
-                norm(c.func.value) == 'err_handler'
-            rep.check('R08.a', fkey(f, 'uncaught params'), ok, 'the handler gets the request parameters plus _route and _error' if ok else
-                      'uncaught_to_response is not given (params, _route=route, _error=exc)', app, c)
-    # _dispatch_wsgi catches RerouteWSGI around dispatch
-    dw = app.func('Application._dispatch_wsgi')
-    dc = [c for c in walk_body(dw.node) if isinstance(c, ast.Call) and norm(c.func) == 'self.dispatch']
-    if len(dc) != 1:
-        raise AnalysisError('_dispatch_wsgi: expected one self.dispatch call')
-    hh = None
-    for tr, part in enclosing_tries(app, dc[0], dw.node):
-        if part == 'body':
-            for x in tr.handlers:
-                if norm(x.type) == 'RerouteWSGI':
-                    hh = x
-    ok = hh is not None and hh.name is not None and any(isinstance(r.value, ast.Call) and norm(r.value.func) == '%s.wsgi_app' % hh.name
-                                                        for r in ast.walk(hh) if isinstance(r, ast.Return))
-    rep.check('R08.a', fkey(dw, 'RerouteWSGI caught'), ok, 'RerouteWSGI is caught at the WSGI boundary and its application is called' if ok else
-              'RerouteWSGI is not caught around self.dispatch(request)', app, dc[0])
-    # error rendering
-    ee = [s for s in stmts_of(f.node) if isinstance(s, ast.Assign) and isinstance(s.value, ast.Call) and call_tail(s.value) == 'execute_error']
-    if len(ee) != 1:
-        raise AnalysisError('dispatch: expected one execute_error call')
-    eh = protected_by(f, ee[0], 'Exception')
-    ok = eh is not None
-    fb_ok = False
-    if ok:
-        fb = [s for s in eh.body if isinstance(s, ast.Assign) and isinstance(s.value, ast.Call) and call_name(s.value) == 'default_render_error']
-        star1 = [norm(k.value) for k in ee[0].value.keywords if k.arg is None]
-        star2 = [norm(k.value) for s in fb for k in s.value.keywords if k.arg is None]
-        fb_ok = len(fb) == 1 and norm(fb[0].targets[0]) == norm(ee[0].targets[0]) and star1 == star2 and len(star1) == 1
-    rep.check('R08.a', fkey(f, 'render_error fallback'), ok and fb_ok,
-              'a failing error renderer falls back to default_render_error with the same parameters (same error)' if ok and fb_ok else
-              'a failing render_error is not replaced by default_render_error(**same params)', app, ee[0])
-    ep = [s for s in stmts_of(f.node) if isinstance(s, ast.Assign) and ee[0].value.keywords and
-          norm(s.targets[0]) == norm(ee[0].value.keywords[0].value)]
-    ok = len(ep) == 1 and isinstance(ep[0].value, ast.Call) and norm(kwarg(ep[0].value, '_error')) == dv.ret_var
-    rep.check('R08.a', fkey(f, '_error is the result'), ok, 'the error handed to the renderer is the HTTPException result itself' if ok else
-              '_error given to render_error is not the dispatch result', app, ep[0] if ep else ee[0])
-    cs = conds(f, ee[0])
-    ok = has_cond(cs, lambda t: norm(t) == 'isinstance(%s, HTTPException)' % dv.ret_var, True)
-    rep.check('R08.a', fkey(f, 'errors are rendered'), ok, 'every HTTPException result goes through the error renderer' if ok else
-              'execute_error is not conditioned on the result being an HTTPException', app, ee[0])
-    recv = norm(ee[0].value.func.value)
-    sr_store = [s for s in stmts_of(f.node) if isinstance(s, ast.Assign) and norm(s.targets[0]) == '%s.source_route' % dv.ret_var]
-    ok = recv == '%s.source_route' % dv.ret_var and len(sr_store) == 1 and norm(sr_store[0].value) == dv.route_var and \
-        has_cond(conds(f, sr_store[0]), lambda t: 'source_route' in norm(t), False)
-    rep.check('R08.a', fkey(f, 'source_route'), ok, 'an error without a source route is attributed to the route that produced it before being rendered' if ok else
-              'ret.source_route may be unset when execute_error is called', app, sr_store[0] if sr_store else ee[0])
-    # dispatch returns the result on every path
-    rets = [r for r in returns_of(f) if not (isinstance(r.value, ast.Call) and call_name(r.value) == 'redirect')]
-    ok = bool(rets) and all(norm(r.value) == dv.ret_var for r in rets)
-    rep.check('R08.a', fkey(f, 'returns result'), ok, 'dispatch returns the (rendered) result' if ok else 'dispatch does not return the result variable', app, f.node)
-    # the null route guarantees a result: loop iterates routes + [null route] (R06.a) and the null route matches everything
-    rep.floor('R08.a', 10)
 
-    # ---- R08.b -----------------------------------------------------------
-    rz = [r for r in raises_of(f) if raise_type(r) == 'TypeError']
-    ok = False
-    for r in rz:
-        cs = conds(f, r)
-        if has_cond(cs, lambda t: norm(t) == 'isinstance(%s, BaseResponse)' % dv.ret_var, False):
-            hh2 = protected_by(f, r, 'Exception')
-            ok = hh2 is not None and hh2 is h
-    rep.check('R08.b', fkey(f, 'non-Response => TypeError inside the region'), ok,
-              'a non-Response result raises TypeError inside the same try as route.execute, so it is converted like any uncaught error' if ok else
-              'a non-Response result is not turned into an error inside the protected region (None/str results escape as they are)', app,
-              rz[0] if rz else dv.exec_st)
-    wz = repo.resolve(app, 'BaseResponse')
-    ok = wz[0] == 'class' and wz[2].name == 'BaseResponse'
-    rep.check('R08.b', '%s::BaseResponse' % APP, ok, 'BaseResponse is werkzeug\'s' if ok else 'BaseResponse is not werkzeug\'s class', app)
+    def dispatch_rules():
+        dv = DispatchView(repo)
+        f, cfg = dv.fi, dv.cfg
+        # ---- R08.a -----------------------------------------------------------
+        for q in ('BoundRoute.execute', 'BoundRoute.execute_error'):
+            tgt = route.func(q)
+            inj = [c for c in walk_body(tgt.node) if isinstance(c, ast.Call) and call_name(c) == 'inject']
+            if len(inj) != 1:
+                raise AnalysisError('%s: expected one inject call' % q)
+            # inject itself inside the target is unprotected (by design): protection must come from callers
+            ok, bad = must_catch(rp, tgt)
+            rep.check('R08.a', '%s::%s::callers protect' % (ROUTE, q), ok,
+                      'every path from Application.__call__ to %s runs it under "except Exception"' % q if ok else
+                      'user code can raise out to the WSGI server: %s' % '; '.join(bad), route, tgt.node)
+        # shape of the execute handler
+        h = protected_by(f, dv.exec_st, 'Exception')
+        if h is None:
+            rep.fail('R08.a', fkey(f, 'route.execute handler'), 'route.execute(...) is not inside a try with "except Exception"', app, dv.exec_st)
+        else:
+            tr = [t for t, part in enclosing_tries(app, dv.exec_st, f.node) if part == 'body' and h in t.handlers][0]
+            idx = tr.handlers.index(h)
+            earlier = tr.handlers[:idx]
+            rr = [x for x in earlier if norm(x.type) == 'RerouteWSGI']
+            ok = len(rr) == 1 and handler_reraises_always(f, rr[0])
+            rep.check('R08.a', fkey(f, 'RerouteWSGI passes'), ok, 'RerouteWSGI is re-raised by an earlier, more specific handler' if ok else
+                      'RerouteWSGI is swallowed by the generic handler (or not re-raised)', app, tr)
+            hcfg_nodes = cfg.handler_nodes(h)
+            inside = set(id(x) for x in ast.walk(h) if isinstance(x, ast.stmt))
+            is_http = lambda t: isinstance_test(t, cls='HTTPException') and norm(t.args[0]) in (dv.ret_var, h.name or '')
+            asg = [s for s in ast.walk(h) if isinstance(s, ast.Assign) and len(s.targets) == 1 and norm(s.targets[0]) == dv.ret_var and
+                   h.name is not None and norm(s.value) == h.name]
+            utr = [s for s in ast.walk(h) if isinstance(s, ast.Assign) and isinstance(s.value, ast.Call) and call_tail(s.value) == 'uncaught_to_response']
+            bind_nodes = cfg.nodes_of_all(asg) + cfg.nodes_of_all([s for s in utr if norm(s.targets[0]) == dv.ret_var])
+            # every way through the handler binds the result (to the exception itself or to its conversion) ...
+            left = [n for n in cfg.reach(hcfg_nodes, avoid=bind_nodes, normal_only=True) if n not in hcfg_nodes and
+                    (cfg.nodes[n].stmt is None or id(cfg.nodes[n].stmt) not in inside)]
+            # ... and the exception itself is what an HTTPException is bound as: first thing, or on the isinstance-true side
+            ok = h.name is not None and len(asg) == 1 and not left and \
+                (h.body[0] is asg[0] or has_cond(conds(f, asg[0]), lambda t: is_http(t) and norm(t.args[0]) == h.name, True))
+            rep.check('R08.a', fkey(f, 'raised == returned'), ok, 'a raised exception becomes the result (an HTTPException raised is treated like one returned)' if ok else
+                      'the handler does not bind the raised exception as the result', app, h)
 
-    # ---- R08.c -----------------------------------------------------------
-    ehc = err.cls('ErrorHandler')
-    fam = [ehc] + repo.subclasses(ehc, [err])
-    TABLE = {'REPLErrorHandler': 're-raising into the werkzeug debugger is this handler\'s documented purpose'}
-    n = 0
-    for c in fam:
-        m = c.methods.get('uncaught_to_response')
-        if m is None:
-            continue
-        n += 1
-        bare = [r for r in raises_of(m) if r.exc is None]
-        if c.name in TABLE:
-            rep.ok('R08.c', fkey(m), 'table entry: ' + TABLE[c.name], err, m.node)
-            continue
-        bad = [r for r in bare if not has_cond(conds(m, r), lambda t: norm(t) == 'self.reraise_uncaught', True)]
-        other = [r for r in raises_of(m) if r.exc is not None]
-        ok = not bad and not other
-        rep.check('R08.c', fkey(m), ok,
-                  're-raises only when self.reraise_uncaught is set (%d bare raise)' % len(bare) if ok else
-                  'uncaught_to_response can raise without reraise_uncaught being set', err, (bad or other or [m.node])[0])
-        rs = returns_of(m)
-        ok = bool(rs) and all(isinstance(r.value, ast.Call) for r in rs)
-        mcfg = cfg_of(m)
-        falls = mcfg.exit in mcfg.reach([mcfg.entry], avoid=set(mcfg.nodes_of_all(rs)), normal_only=True)
-        rep.check('R08.c', fkey(m, 'returns a response'), ok and not falls, 'returns a constructed server-error response on every other path' if ok and not falls else
-                  'uncaught_to_response can return None', err, m.node)
-    if n < 3:
-        raise AnalysisError('ErrorHandler family: %d uncaught_to_response implementations (floor 3)' % n)
-    ei = ehc.methods['__init__']
-    ru = [s for s in stmts_of(ei.node) if isinstance(s, ast.Assign) and norm(s.targets[0]) == 'self.reraise_uncaught']
-    ok = len(ru) == 1 and norm(ru[0].value) in ("kwargs.get('reraise_uncaught')", "kwargs.get('reraise_uncaught', False)",
-                                                 "kwargs.pop('reraise_uncaught', False)", "kwargs.pop('reraise_uncaught', None)")
-    rep.check('R08.c', fkey(ei, 'reraise_uncaught default'), ok, 'reraise_uncaught is off unless requested' if ok else
-              'reraise_uncaught does not default to a falsy value', err, ei.node)
-    rep.floor('R08.c', 5)
+            def _not_http(st_):
+                for t_, p_ in conds(f, st_):
+                    if p_ is False and is_http(t_):
+                        if norm(t_.args[0]) == h.name:
+                            return True
+                        # tested through the result variable: it must hold the exception at that point
+                        if asg and cfg.must_pass(cfg.nodes_of_all(asg), hcfg_nodes, cfg.nodes_of(st_)):
+                            return True
+                return False
+            ok = len(utr) == 1 and norm(utr[0].targets[0]) == dv.ret_var and _not_http(utr[0])
+            rep.check('R08.a', fkey(f, 'uncaught_to_response'), ok,
+                      'every non-HTTP exception is converted by err_handler.uncaught_to_response(...)' if ok else
+                      'non-HTTP exceptions are not routed through uncaught_to_response into the result', app, utr[0] if utr else h)
+            if utr:
+                c = utr[0].value
+                star = [k.value for k in c.keywords if k.arg is None]
+                ok = len(star) == 1 and not c.args and norm(dv.resolve(c.func.value)) == 'self.error_handler'
+                if ok:
+                    lay = _layers(f, star[0])
+                    lit = {}
+                    for l in lay:
+                        if l.kind == 'literal':
+                            lit.update(l.values)
+                    exec_star = [norm(k.value) for k in dv.exec_call.keywords if k.arg is None]
+                    ok = bool(lay) and lay[0].kind == 'source' and [lay[0].text] == exec_star and \
+                        all(l.kind == 'literal' for l in lay[1:]) and set(lit) == {'_route', '_error'} and \
+                        norm(lit['_route']) == dv.route_var and _is_the_error(dv, cfg, h, asg, lit['_error'], utr[0])
+                rep.check('R08.a', fkey(f, 'uncaught params'), ok, 'the handler gets the request parameters plus _route and _error' if ok else
+                          'uncaught_to_response is not given (params, _route=route, _error=exc)', app, c)
+        # _dispatch_wsgi catches RerouteWSGI around dispatch
+        dw = app.func('Application._dispatch_wsgi')
+        dc = [c for c in walk_body(dw.node) if isinstance(c, ast.Call) and norm(c.func) == 'self.dispatch']
+        if len(dc) != 1:
+            raise AnalysisError('_dispatch_wsgi: expected one self.dispatch call')
+        hh = None
+        for tr, part in enclosing_tries(app, dc[0], dw.node):
+            if part == 'body':
+                for x in tr.handlers:
+                    if norm(x.type) == 'RerouteWSGI':
+                        hh = x
+        ok = hh is not None and hh.name is not None and any(isinstance(r.value, ast.Call) and norm(resolve_local(dw.node, r.value.func)) == '%s.wsgi_app' % hh.name
+                                                            for r in ast.walk(hh) if isinstance(r, ast.Return))
+        rep.check('R08.a', fkey(dw, 'RerouteWSGI caught'), ok, 'RerouteWSGI is caught at the WSGI boundary and its application is called' if ok else
+                  'RerouteWSGI is not caught around self.dispatch(request)', app, dc[0])
+        # error rendering
+        eec = [c for c in walk_body(f.node) if isinstance(c, ast.Call) and call_tail(c) == 'execute_error']
+        if len(eec) != 1:
+            raise AnalysisError('dispatch: expected one execute_error call')
+        eec = eec[0]
+        ee = stmt_of(app, eec)
+        if not ((isinstance(ee, ast.Assign) and len(ee.targets) == 1 and isinstance(ee.targets[0], ast.Name)) or isinstance(ee, ast.Return)) or ee.value is not eec:
+            raise AnalysisError('dispatch: the result of execute_error(...) is neither bound to a local nor returned')
+        eh = protected_by(f, ee, 'Exception')
+        ok = eh is not None
+        fb_ok = False
+        fb = []
+        if ok:
+            fb = [s for s in eh.body if isinstance(s, (ast.Assign, ast.Return)) and isinstance(s.value, ast.Call) and call_name(s.value) == 'default_render_error']
+            star1 = [norm(k.value) for k in eec.keywords if k.arg is None]
+            star2 = [norm(k.value) for s in fb for k in s.value.keywords if k.arg is None]
+            same_sink = len(fb) == 1 and type(fb[0]) is type(ee) and (isinstance(ee, ast.Return) or norm(fb[0].targets[0]) == norm(ee.targets[0]))
+            fb_ok = same_sink and star1 == star2 and len(star1) == 1 and not eec.args and not fb[0].value.args and \
+                len(eec.keywords) == 1 and len(fb[0].value.keywords) == 1
+        rep.check('R08.a', fkey(f, 'render_error fallback'), ok and fb_ok,
+                  'a failing error renderer falls back to default_render_error with the same parameters (same error)' if ok and fb_ok else
+                  'a failing render_error is not replaced by default_render_error(**same params)', app, ee)
+        star = [k.value for k in eec.keywords if k.arg is None]
+        ok = len(star) == 1
+        if ok:
+            lay = _layers(f, star[0])
+            lit = {}
+            for l in lay:
+                if l.kind == 'literal':
+                    lit.update(l.values)
+            exec_star = [norm(k.value) for k in dv.exec_call.keywords if k.arg is None]
+            ok = '_error' in lit and norm(dv.resolve(lit['_error'])) == dv.ret_var and bool(lay) and lay[0].kind == 'source' and [lay[0].text] == exec_star
+        rep.check('R08.a', fkey(f, '_error is the result'), ok, 'the error handed to the renderer is the HTTPException result itself' if ok else
+                  '_error given to render_error is not the dispatch result', app, ee)
+        cs = conds(f, ee)
+        ok = has_cond(cs, lambda t: norm(t) == 'isinstance(%s, HTTPException)' % dv.ret_var, True)
+        rep.check('R08.a', fkey(f, 'errors are rendered'), ok, 'every HTTPException result goes through the error renderer' if ok else
+                  'execute_error is not conditioned on the result being an HTTPException', app, ee)
+        recv = eec.func.value
+        recv_ok = isinstance(recv, ast.Attribute) and recv.attr == 'source_route' and norm(dv.resolve(recv.value)) == dv.ret_var
+        sr_store = [s for s in stmts_of(f.node) if isinstance(s, ast.Assign) and norm(s.targets[0]) == '%s.source_route' % dv.ret_var]
+        ok = recv_ok and len(sr_store) == 1 and norm(sr_store[0].value) == dv.route_var and \
+            has_cond(conds(f, sr_store[0]), lambda t: 'source_route' in norm(t), False)
+        rep.check('R08.a', fkey(f, 'source_route'), ok, 'an error without a source route is attributed to the route that produced it before being rendered' if ok else
+                  'ret.source_route may be unset when execute_error is called', app, sr_store[0] if sr_store else ee)
+        # dispatch returns the result on every path: the result variable, or directly what the renderer / its fallback gave
+        rets = [r for r in returns_of(f) if not (isinstance(r.value, ast.Call) and call_name(r.value) == 'redirect')]
+        ok = bool(rets) and all(r.value is not None and (norm(r.value) == dv.ret_var or r is ee or r in fb) for r in rets) and \
+            cfg.must_pass(cfg.nodes_of_all(returns_of(f)), cfg.entry, cfg.exit, normal_only=True)
+        rep.check('R08.a', fkey(f, 'returns result'), ok, 'dispatch returns the (rendered) result' if ok else 'dispatch does not return the result variable', app, f.node)
+        # the null route guarantees a result: loop iterates routes + [null route] (R06.a) and the null route matches everything
+        rep.floor('R08.a', 10)
 
-    # ---- R08.d -----------------------------------------------------------
-    check_no_shared_store(rep, 'R08.d', rp)
+        # ---- R08.b -----------------------------------------------------------
+        rz = [r for r in raises_of(f) if raise_type(r) == 'TypeError']
+        ok = False
+        for r in rz:
+            cs = conds(f, r)
+            if has_cond(cs, lambda t: norm(t) == 'isinstance(%s, BaseResponse)' % dv.ret_var, False):
+                hh2 = protected_by(f, r, 'Exception')
+                ok = hh2 is not None and hh2 is h
+        rep.check('R08.b', fkey(f, 'non-Response => TypeError inside the region'), ok,
+                  'a non-Response result raises TypeError inside the same try as route.execute, so it is converted like any uncaught error' if ok else
+                  'a non-Response result is not turned into an error inside the protected region (None/str results escape as they are)', app,
+                  rz[0] if rz else dv.exec_st)
+        wz = repo.resolve(app, 'BaseResponse')
+        ok = wz[0] == 'class' and wz[2].name == 'BaseResponse'
+        rep.check('R08.b', '%s::BaseResponse' % APP, ok, 'BaseResponse is werkzeug\'s' if ok else 'BaseResponse is not werkzeug\'s class', app)
 
-    # ---- R08.e -----------------------------------------------------------
-    rep.rule('R08.e', 'the error serialisers never use error text as a format template (the fallback renderer runs the same code, '
-                      'so a raising serialiser cannot be rescued and the exception reaches the WSGI server)')
-    from .c09 import check_template_constancy, check_escape_total
-    if check_template_constancy(rep, 'R08.e') < 3:
-        raise AnalysisError('format sinks in the to_* serialisers not found')
-    check_escape_total(rep, 'R08.e')
 
-    # ---- R08.f -----------------------------------------------------------
-    rep.rule('R08.f', 'dispatch calls route.match_path outside its try: converters there must run under a handler (a segment that '
-                      'matches the type pattern but fails conversion is "no match", not an exception escaping to the server)')
-    from .c05 import check_match_path_no_raise
-    check_match_path_no_raise(rep, 'R08.f')
-    mp_h = protected_by(f, dv.match_st, 'Exception')
-    rep.ok('R08.f', fkey(f, 'match_path call site'), 'route.match_path(...) is called %s the protected region of dispatch'
-           % ('inside' if mp_h is not None else 'outside'), app, dv.match_st)
+    def reraise_rules():
+        # ---- R08.c -----------------------------------------------------------
+        ehc = err.cls('ErrorHandler')
+        fam = [ehc] + repo.subclasses(ehc, [err])
+        TABLE = {'REPLErrorHandler': 're-raising into the werkzeug debugger is this handler\'s documented purpose'}
+        n = 0
+        for c in fam:
+            m = c.methods.get('uncaught_to_response')
+            if m is None:
+                continue
+            n += 1
+            bare = [r for r in raises_of(m) if r.exc is None]
+            if c.name in TABLE:
+                rep.ok('R08.c', fkey(m), 'table entry: ' + TABLE[c.name], err, m.node)
+                continue
+            bad = [r for r in bare if not has_cond(conds(m, r), lambda t: norm(t) == 'self.reraise_uncaught', True)]
+            other = [r for r in raises_of(m) if r.exc is not None]
+            ok = not bad and not other
+            rep.check('R08.c', fkey(m), ok,
+                      're-raises only when self.reraise_uncaught is set (%d bare raise)' % len(bare) if ok else
+                      'uncaught_to_response can raise without reraise_uncaught being set', err, (bad or other or [m.node])[0])
+            rs = returns_of(m)
+            ok = bool(rs) and all(isinstance(r.value, ast.Call) for r in rs)
+            mcfg = cfg_of(m)
+            falls = mcfg.exit in mcfg.reach([mcfg.entry], avoid=set(mcfg.nodes_of_all(rs)), normal_only=True)
+            rep.check('R08.c', fkey(m, 'returns a response'), ok and not falls, 'returns a constructed server-error response on every other path' if ok and not falls else
+                      'uncaught_to_response can return None', err, m.node)
+        if n < 3:
+            raise AnalysisError('ErrorHandler family: %d uncaught_to_response implementations (floor 3)' % n)
+        ei = ehc.methods['__init__']
+        ru = [s for s in stmts_of(ei.node) if isinstance(s, ast.Assign) and norm(s.targets[0]) == 'self.reraise_uncaught']
+        ok = len(ru) == 1 and norm(ru[0].value) in ("kwargs.get('reraise_uncaught')", "kwargs.get('reraise_uncaught', False)",
+                                                     "kwargs.pop('reraise_uncaught', False)", "kwargs.pop('reraise_uncaught', None)")
+        rep.check('R08.c', fkey(ei, 'reraise_uncaught default'), ok, 'reraise_uncaught is off unless requested' if ok else
+                  'reraise_uncaught does not default to a falsy value', err, ei.node)
+        rep.floor('R08.c', 5)
 
-    # ---- R08.g -----------------------------------------------------------
-    rep.rule('R08.g', 'no strict bytes<->text conversion on the part of the request path that no handler covers')
-    check_total_decoding(rep, 'R08.g', rp)
+
+    def store_rules():
+        # ---- R08.d -----------------------------------------------------------
+        check_no_shared_store(rep, 'R08.d', rp)
+
+
+    def serialiser_rules():
+        # ---- R08.e -----------------------------------------------------------
+        rep.rule('R08.e', 'the error serialisers never use error text as a format template (the fallback renderer runs the same code, '
+                          'so a raising serialiser cannot be rescued and the exception reaches the WSGI server)')
+        from .c09 import check_template_constancy, check_escape_total
+        if check_template_constancy(rep, 'R08.e') < 3:
+            raise AnalysisError('format sinks in the to_* serialisers not found')
+        check_escape_total(rep, 'R08.e')
+
+
+    def converter_rules():
+        dv = DispatchView(repo)
+        f = dv.fi
+        # ---- R08.f -----------------------------------------------------------
+        rep.rule('R08.f', 'dispatch calls route.match_path outside its try: converters there must run under a handler (a segment that '
+                          'matches the type pattern but fails conversion is "no match", not an exception escaping to the server)')
+        from .c05 import check_match_path_no_raise
+        check_match_path_no_raise(rep, 'R08.f')
+        mp_h = protected_by(f, dv.match_st, 'Exception')
+        rep.ok('R08.f', fkey(f, 'match_path call site'), 'route.match_path(...) is called %s the protected region of dispatch'
+               % ('inside' if mp_h is not None else 'outside'), app, dv.match_st)
+
+
+    def decoding_rules():
+        # ---- R08.g -----------------------------------------------------------
+        rep.rule('R08.g', 'no strict bytes<->text conversion on the part of the request path that no handler covers')
+        check_total_decoding(rep, 'R08.g', rp)
+
+    # each group is analysed on its own: a construct one group cannot follow does not hide the verdicts of the others
+    for group in (dispatch_rules, reraise_rules, store_rules, serialiser_rules, converter_rules, decoding_rules):
+        run_group(rep, group)
 
 
 def _strict_codec_call(c):
